@@ -65,6 +65,8 @@ def main(argv):
     rep = ctx.report
     rep.t_start = t0
     findings = core.load_findings(prop)
+    rep.is_known = lambda v: (v.get("model_agrees_with_spec") is not True and
+                              any(f.get("kind") == "finding" and finding_matches(f, v) for f in findings))
     try:
         # known findings: replay each recorded witness
         for f in findings:
@@ -102,7 +104,7 @@ def main(argv):
             el = time.time() - t_run[0]
             if el >= limit_s:
                 raise core.Enough("time limit of %d s reached" % limit_s)
-            if rep.violations and el >= soft_s:
+            if len(rep.violations) > rep.n_known_violations and el >= soft_s:
                 raise core.Enough("a failing input is in hand and the run has become slow")
         signal.signal(signal.SIGALRM, on_alarm)
         signal.setitimer(signal.ITIMER_REAL, 10, 10)
